@@ -111,6 +111,8 @@ Allowed(e) == CASE e.e = "Load"    -> OkLoad(e)
                 [] e.e = "RT2"     -> OkRT2(e)
                 [] e.e = "Next"    -> OkNext(e)
                 [] e.e = "Prev"    -> OkPrev(e) /\ PrevExactWhenNear(e)
+                [] e.e = "Twin" -> e.same = 1
+                [] e.e = "PanelUB" -> FALSE        \* an undefined operation while the driver prepared its panel
                 [] e.e = "ChainStart" -> TRUE
                 [] e.e = "ChainEnd" -> OkChainEnd(e)
                 [] OTHER -> FALSE
